@@ -257,6 +257,21 @@ def Graph.valueReqsL : List Graph → List String
 end
 
 mutual
+/-- every name that is given a value somewhere in the graph (formal inputs, initializers, node
+    outputs), at any depth -/
+def Graph.assigned : Graph → List String
+  | .mk inputs inits nodes _ _ => inputs ++ inits.map (·.1) ++ Node.assignedL nodes
+def Node.assignedL : List Node → List String
+  | [] => []
+  | n :: ns => Node.assigned n ++ Node.assignedL ns
+def Node.assigned : Node → List String
+  | .mk _ _ _ outs subs => outs ++ Graph.assignedL subs
+def Graph.assignedL : List Graph → List String
+  | [] => []
+  | g :: gs => Graph.assigned g ++ Graph.assignedL gs
+end
+
+mutual
 /-- non-empty node names in the order `rename_in_graph` meets them -/
 def Graph.nodeReqs : Graph → List String
   | .mk _ _ nodes _ _ => Node.nodeReqsL nodes
@@ -423,10 +438,13 @@ def evalNode (sem : OpSem V) (lit : Lit → V) : Node → Env V → Option (Env 
 def evalBodies (sem : OpSem V) (lit : Lit → V) : List Graph → Env V → List (Body V)
   | [], _ => []
   | g :: gs, env => (fun args => evalGraph sem lit g env args) :: evalBodies sem lit gs env
-/-- a graph in an environment of outer values, applied to actual inputs -/
+/-- a graph in an environment of outer values, applied to actual inputs: the inputs take the
+    actual values; an initializer named like an input is only a default (overridden), every other
+    initializer is a constant -/
 def evalGraph (sem : OpSem V) (lit : Lit → V) : Graph → Env V → List (Option V) → Option (List (Option V))
   | .mk inputs inits nodes outputs _, env, args =>
-    match evalNodes sem lit nodes ((Env.bindInits lit env inits).setMany inputs args) with
+    match evalNodes sem lit nodes
+        (Env.bindInits lit (env.setMany inputs args) (inits.filter fun p => !inputs.contains p.1)) with
     | none => none
     | some env' => some (outputs.map env'.get)
 def evalNodes (sem : OpSem V) (lit : Lit → V) : List Node → Env V → Option (Env V)
